@@ -71,6 +71,8 @@ def build_idx(d):
         return torch.tensor(d[1], dtype=torch.int64)
     if k == "mask":
         return torch.tensor(d[1], dtype=torch.bool)
+    if k == "ten2":
+        return torch.tensor(d[1], dtype=torch.int64)        # integer index array of rank 2
     if k == "ell":
         return Ellipsis
     if k == "non":
@@ -101,16 +103,20 @@ def _names(x):
     return None if n is None else list(n)
 
 
-def snap(x, seen=None):
+def snap(x, seen=None, onpath=frozenset()):
     """recursive, value-free snapshot of a real object; `seen` collects ids of container nodes (alias detection)"""
     if seen is None:
         seen = {}
     if isinstance(x, torch.Tensor):
         return {"k": "leaf", "shape": list(x.shape), "dev": x.device.type}
+    if id(x) in onpath or len(onpath) > 60:
+        # an object graph with a cycle (a tensordict reachable from one of its own non-tensor entries): not walked further
+        return {"k": "unknown-cycle"}
+    onpath = onpath | {id(x)}
     if isinstance(x, LazyStackedTensorDict) and not isinstance(x, NonTensorStack):
         seen[id(x)] = seen.get(id(x), 0) + 1
         out = {"k": "lazy", "bs": list(x.batch_size), "dev": _dev(x), "names": _names(x), "dim": x.stack_dim,
-               "members": [snap(m, seen) for m in x.tensordicts], "view": []}
+               "members": [snap(m, seen, onpath) for m in x.tensordicts], "view": []}
         try:
             keys = list(x.keys())
         except Exception:  # noqa: BLE001
@@ -132,20 +138,20 @@ def snap(x, seen=None):
         hidden = []
         inner = getattr(x, "_tensordict", None)
         if isinstance(x, NonTensorData) and isinstance(inner, TensorDict):
-            hidden = [[key, snap(v, seen)] for key, v in inner._tensordict.items()]      # entries written THROUGH the non-tensor node
+            hidden = [[key, snap(v, seen, onpath)] for key, v in inner._tensordict.items()]      # entries written THROUGH the non-tensor node
         return {"k": "nt" if isinstance(x, NonTensorData) else "nts", "bs": list(x.batch_size), "dev": _dev(x), "names": _names(x),
                 "ents": hidden}
     if isinstance(x, TensorDict):
         seen[id(x)] = seen.get(id(x), 0) + 1
         return {"k": "td", "bs": list(x.batch_size), "dev": _dev(x), "names": _names(x),
-                "ents": [[key, snap(v, seen)] for key, v in x._tensordict.items()]}
+                "ents": [[key, snap(v, seen, onpath)] for key, v in x._tensordict.items()]}
     if isinstance(x, TensorDictBase):
         seen[id(x)] = seen.get(id(x), 0) + 1
         return {"k": "other-" + type(x).__name__, "bs": list(x.batch_size), "dev": _dev(x), "names": _names(x),
-                "ents": [[key, snap(v, seen)] for key, v in x.items()]}
+                "ents": [[key, snap(v, seen, onpath)] for key, v in x.items()]}
     if hasattr(x, "_tensordict") and hasattr(x, "batch_size"):      # tensorclass instance
         seen[id(x)] = seen.get(id(x), 0) + 1
-        inner = snap(x._tensordict, seen)
+        inner = snap(x._tensordict, seen, onpath)
         return {"k": "tc", "bs": list(x.batch_size), "dev": _dev(x), "names": _names(x), "ents": inner.get("ents", []),
                 "inner": inner}
     return {"k": "unknown-" + type(x).__name__}
@@ -158,6 +164,22 @@ def canon_names(n):
 
 
 # ====================================================================================================== the oracle
+def duplicate_names(s, path=(), out=None):
+    """dim-name coherence as the library itself defines it (names setter, constructor, _rename_subtds all refuse a name used
+    for two dims): non-None names of a node are pairwise different.  Evaluated on the RESULTS of indexed reads."""
+    if out is None:
+        out = []
+    n = s.get("names")
+    if n is not None and not (n and str(n[0]).startswith("<names raised")):
+        named = [x for x in n if x is not None]
+        if len(set(named)) != len(named):
+            out.append({"what": "names-duplicate", "at": list(path), "names": list(n), "batch_size": s.get("bs")})
+    for key, v in (s.get("ents") or []):
+        if isinstance(v, dict) and v.get("k") in ("td", "tc", "nt"):
+            duplicate_names(v, path + (key,), out)
+    return out
+
+
 def coherent(s, pbs=None, pdev=None, path=(), out=None):
     """problems of a snapshot (empty list = coherent): exactly the four clauses of the property"""
     if out is None:
@@ -703,10 +725,19 @@ def gen_op(rng, S, parent_of=None):
         op["key"] = gen_key(rng, node, existing=rng.random() < 0.25)
     elif o in ("lazy_append", "lazy_insert"):
         mb = list(node["members"][0]["bs"]) if node.get("members") else []
-        op["value"] = gen_td(rng, mb if good else bad_shape(rng, mb), 1, node["dev"])
+        # mostly on the stack's device, sometimes on another one (insert compares with the first member's device)
+        vdev = rng.choice([node["dev"], node["dev"], node["dev"], "cpu", "meta", None])
+        op["value"] = gen_td(rng, mb if good else bad_shape(rng, mb), 1, vdev)
         op["i"] = rng.randint(0, len(node.get("members") or []))
     elif o == "getitem":
         op["idx"] = gen_idx(rng, bs, good=rng.random() < 0.9)
+        if bs and rng.random() < 0.2:
+            # an integer index ARRAY of rank 2 (first dim, or second dim behind a full slice)
+            d = 1 if (len(bs) >= 2 and rng.random() < 0.4) else 0
+            if bs[d] > 0:
+                nr, nc = rng.choice([1, 2]), rng.choice([1, 2, 3])
+                arr = ["ten2", [[rng.randrange(bs[d]) for _ in range(nc)] for _ in range(nr)]]
+                op["idx"] = arr if d == 0 else ["tup", [["sl", None, None, None], arr]]
     lazify(rng, op, node)
     return op
 
@@ -863,7 +894,7 @@ def run_history(seed, length, wide, on_step=None):
             continue
         if op["op"] == "getitem" and res[0] == "ok":
             rs = snap(res[1])
-            step["result_problems"] = coherent(rs)
+            step["result_problems"] = coherent(rs) + duplicate_names(rs)
             step["result"] = rs
         seen = {}
         S2 = snap(root, seen)
@@ -1213,6 +1244,52 @@ def op_sx(op, pre=None):
     return [Sym("at"), path, o0]
 
 
+def lazy_modelable(s):
+    """a lazy stack at the root whose members are plain TensorDict trees"""
+    if s.get("k") != "lazy" or not s.get("members"):
+        return False
+    n = s.get("names")
+    return all(m.get("k") == "td" and modelable(m) for m in s["members"])
+
+
+def lstack_sx(s):
+    return [Sym("lstack"), int(s["dim"]), [tree_sx(m) for m in s["members"]]]
+
+
+def lop_sx(op):
+    """op on a lazy root -> model op (Model/C01_Lazy.lop) or None"""
+    if op.get("path"):
+        return None
+    o = op["op"]
+    v = None
+    if "value" in op:
+        try:
+            v = value_sx(op["value"])
+        except Exception:  # noqa: BLE001
+            return None
+        if v is None:
+            return None
+    if o == "set":
+        return [Sym("set"), op["key"], v, bool(op.get("inplace"))]
+    if o == "setitem":
+        return [Sym("set"), op["key"], v, False]
+    if o == "set_":
+        return [Sym("set_"), op["key"], v]
+    if o in ("del", "delitem"):
+        return [Sym("del"), op["key"]]
+    if o == "lazy_insert":
+        return [Sym("insert"), int(op["i"]), v]
+    if o == "lazy_append":
+        return [Sym("append"), v]
+    if o == "batch_size":
+        return [Sym("bs"), bool(op.get("as_size")), list(op["bs"])]
+    return None
+
+
+def canon_lstack(s):
+    return ["lstack", int(s["dim"]), [canon_tree(m) for m in s["members"]], list(s["bs"]), s["dev"] or "none"]
+
+
 def _sx(o):
     """core.sx with None inside lists printed as the atom none"""
     return sx(o)
@@ -1230,6 +1307,12 @@ def canon_tree(s):
 def result_signature(step, problem):
     """pattern of a problem found in the RESULT of an indexed read"""
     sig = {"call": "__getitem__", "what": problem["what"], "outcome": "ok", "pattern": "indexed-result"}
+    if problem["what"] == "names-duplicate":
+        idx = step["op"].get("idx") or []
+        items = idx[1] if idx and idx[0] == "tup" else [idx]
+        if any(x and x[0] == "ten2" for x in items):
+            sig["pattern"] = "index-array-rank2-on-named-dim"
+        return sig
     victim = sub_snapshot(step.get("result") or {"k": "none"}, problem["at"]) if step.get("result") else None
     if victim is not None and victim.get("k") in ("nts", "lazy") and victim.get("names") and str(victim["names"][0]).startswith("<names raised") \
             and not victim.get("members"):
@@ -1261,7 +1344,7 @@ def replay_case(case):
         if op["op"] == "getitem" and res[0] == "ok":
             rs = snap(res[1])
             step["result"] = rs
-            step["result_problems"] = coherent(rs)
+            step["result_problems"] = coherent(rs) + duplicate_names(rs)
         steps.append(step)
         S = S2
     return steps
@@ -1351,6 +1434,16 @@ def work(args):
         if st.get("aliased"):
             cnt("model:skipped-aliased")
             continue
+        if lazy_modelable(st["pre"]) and lazy_modelable(st["post"]):
+            lo = lop_sx(st["op"])
+            if lo is None:
+                cnt("model:lazy-op-not-modelled")
+                continue
+            # lcohb does not speak about the NAMES of a stack (finding D107 stays with the oracle): the twin check leaves them out
+            out["lines"].append({"line": sx([Sym("lstep"), lstack_sx(st["pre"]), lo]), "out": st["out"], "post": canon_lstack(st["post"]),
+                                 "coherent": not [p for p in probs if not p["what"].startswith("names")], "in_scope": True, "case": case_of(rec, i), "op": "lazy:" + o, "lazy": True,
+                                 "changed": canon_lstack(st["pre"]) != canon_lstack(st["post"])})
+            continue
         if not modelable(st["pre"]) or not modelable(st["post"]):
             cnt("model:outside-plain-trees")
             continue
@@ -1387,9 +1480,13 @@ def main(R):
     R.assumptions = ["tensor element values are not part of the property (all leaves are zeros)",
                      "arguments handed to the calls are built through the public constructors only",
                      "the model covers plain TensorDict trees (tensor leaves, nested TensorDicts, NonTensorData entries) including index "
-                     "writes (td[idx] = v, set_at_, update_at_; ints / slices / None / Ellipsis / one in-range advanced index); lazy stacks, "
-                     "tensorclasses, update_batch_size, NonTensorData entries under an index write and dim names met by an auto-created "
-                     "nested entry are covered by the oracle only"]
+                     "writes (td[idx] = v, set_at_, update_at_; ints / slices / None / Ellipsis / one in-range advanced index), and lazy "
+                     "stacks AT THE ROOT whose members are plain trees (set / set_ / key assignment with tensor or unnamed tensordict values, "
+                     "del_, insert, append, batch_size assignment); lazy stacks nested in a tree, the names of a stack, update / index "
+                     "writes on a stack, tensorclasses, update_batch_size, NonTensorData entries under an index write and dim names met by "
+                     "an auto-created nested entry are covered by the oracle only",
+                     "results of indexed reads are also required to carry pairwise different non-None dim names (what the names setter "
+                     "accepts): finding D113"]
     R.trusted = ["harness/c01.py: snapshot walk and the 4-clause oracle `coherent` (cross-checked against Coq's coherentb on every modelled state)"]
     R.step_prove()
     ok = R.step_driver()
@@ -1453,6 +1550,21 @@ def main(R):
                 R.traces += 1
                 if not isinstance(r, list) or (r and r[0] == "decode-error"):
                     R.mismatch("decode", ln["case"], "line accepted by the code", r)
+                    continue
+                if ln.get("lazy"):
+                    mt, mo, coh_pre, coh_post, vok = r
+                    if mo == "unmodelled":
+                        R.count("model:unmodelled-branch:" + ln["op"])
+                        continue
+                    R.count("model:compared:" + ln["op"] + ":" + ln["out"] + (":state-changed" if ln.get("changed") else ""))
+                    if coh_pre == "t" and vok == "t":
+                        inside += 1
+                    if mo != ln["out"] or mt != ln["post"]:
+                        R.mismatch("lstep:" + ln["op"], ln["case"], {"outcome": ln["out"], "post": ln["post"]}, {"outcome": mo, "post": mt})
+                    elif coh_pre == "t" and vok == "t" and coh_post != "t":
+                        R.mismatch("theorem-instance-lazy", ln["case"], "model lazy state incoherent inside the theorem's domain", mt)
+                    elif coh_post == "t" and not ln["coherent"]:
+                        R.mismatch("lcohb-twin", ln["case"], {"oracle_coherent": False}, {"lcohb": coh_post})
                     continue
                 mt, mo, coh_pre, coh_post, insc, clean = r
                 if mo == "unmodelled":
